@@ -120,6 +120,7 @@ func NewMachine(prog *ssa.Program, initPkgs []*ssa.Package, solverLog *os.File) 
 	} else {
 		i.x = NewExplorer(newSolver(nil))
 	}
+	i.x.onFlush = i.decideAsserts
 	m := &Machine{i: i, prog: prog, MaxPaths: 1 << 30, StepLimit: 50_000_000}
 	for _, p := range initPkgs {
 		m.inits = append(m.inits, p.Func("init"))
@@ -302,6 +303,7 @@ func (m *Machine) runOnce(fn *ssa.Function) (outcome interface{}) {
 		call(m.i, nil, token.NoPos, in, nil)
 	}
 	call(m.i, nil, token.NoPos, fn, nil)
+	m.i.x.flush()
 	return nil
 }
 
@@ -324,6 +326,7 @@ func (i *interpreter) cond(v value) bool {
 
 // concretize enumerates the feasible values of a symbolic integer (forking).
 func (i *interpreter) concretize(s *sym) int64 {
+	i.x.flush()
 	if s.k != symBV {
 		panic(unsupported("concretize non-integer"))
 	}
@@ -576,21 +579,44 @@ func ndAssert(fr *frame, args []value) value {
 			fr.i.x.decide([]string{c.e})
 			return nil
 		}
-		fr.i.obligations++
-		sat, model := fr.i.x.checkSat(symNot(c).e)
-		if !sat {
-			fr.i.discharged++
-		}
-		if sat {
-			if !seenCrash["assert:"+id] {
-				seenCrash["assert:"+id] = true
-				violations = append(violations, Violation{Kind: "assert", Msg: id, Model: model, Trail: trailChoices(fr.i.x), Values: replayValues(fr.i.x, model)})
-			}
-		}
-		// continue under the assumption that it held
-		fr.i.x.decide([]string{c.e})
+		fr.i.x.pending = append(fr.i.x.pending, pendingAssert{c, id})
 	}
 	return nil
+}
+
+// decideAsserts is the explorer's flush callback.
+func (i *interpreter) decideAsserts(p []pendingAssert) {
+	x := i.x
+	conj := mkBool("true")
+	for _, a := range p {
+		conj = symAnd(conj, a.cond)
+	}
+	if len(p) > 1 {
+		i.obligations += len(p)
+		if sat, _ := x.checkSat(symNot(conj).e); !sat {
+			i.discharged += len(p)
+			for _, a := range p {
+				x.assumeUnchecked(a.cond.e)
+			}
+			return
+		}
+		i.obligations -= len(p)
+	}
+	for _, a := range p {
+		i.obligations++
+		sat, model := x.checkSat(symNot(a.cond).e)
+		if !sat {
+			i.discharged++
+			x.assumeUnchecked(a.cond.e)
+			continue
+		}
+		if !seenCrash["assert:"+a.id] {
+			seenCrash["assert:"+a.id] = true
+			violations = append(violations, Violation{Kind: "assert", Msg: a.id, Model: model, Trail: trailChoices(x), Values: replayValues(x, model)})
+		}
+		// continue under the assumption that it held
+		x.decide([]string{a.cond.e})
+	}
 }
 
 func ndReach(fr *frame, args []value) value {
